@@ -475,9 +475,44 @@ func ruleSequentialInnerGuard() check.Rule {
 						return !polarity // the edge on which IsClosed() is false
 					}
 					body := funcBody(innermostFunc(m, s.Pkg, s.Call))
-					if guardedByEdge(body, s.Call, notClosed) {
-						if armed {
-							c.OK(key, s.Pos, "the inner observable is subscribed only while the operator's subscription is still open")
+					// which subscription does the guard test, and does the inner error path close it?
+					var guardNodes []string
+					collect := func(cond ast.Expr, polarity bool) bool {
+						if notClosed(cond, polarity) {
+							e := ast.Unparen(cond)
+							if u, ok := e.(*ast.UnaryExpr); ok {
+								e = ast.Unparen(u.X)
+							}
+							if call, ok := e.(*ast.CallExpr); ok {
+								if sel, ok := ast.Unparen(call.Fun).(*ast.SelectorExpr); ok {
+									if n := resNode(info, nil, sel.X); n != "" {
+										guardNodes = append(guardNodes, n)
+									}
+								}
+							}
+							return true
+						}
+						return false
+					}
+					if guardedByEdge(body, s.Call, collect) {
+						closes := false
+						for _, op := range sc.SubOps {
+							if op.Method != "Unsubscribe" || op.Ctx != s.Src || op.Slot != model.SlotError {
+								continue
+							}
+							n1, n2 := resNode(op.Pkg.TypesInfo, op.Recv, op.RecvExpr), resNode(op.Pkg.TypesInfo, nil, op.RecvExpr)
+							for _, g := range guardNodes {
+								if g == n1 || g == n2 {
+									closes = true
+								}
+							}
+						}
+						if closes || len(guardNodes) == 0 {
+							if armed {
+								c.OK(key, s.Pos, "the inner observable is subscribed only while the operator's subscription is still open, and the error path of an inner observable closes it")
+							}
+						} else {
+							c.Report(armed, key, s.Pos, "the open-test that guards the next inner subscription looks at a subscription that the error slot of an inner observable never closes: after an inner error a synchronously emitting outer source still makes the operator subscribe the following inner observables")
 						}
 					} else {
 						c.Report(armed, key, s.Pos, "the next inner observable is subscribed without testing that the output is still open: after an inner error (or an early unsubscription) a synchronously emitting outer source makes the operator subscribe the following inner observables although the output has ended")
